@@ -49,8 +49,28 @@ structure Outcome where
 structure Call where
   done : Nat
   ents : List Entry
+  /-- control side of the offered slots as the kernel sees it: `none` = `Hdr.Control == nil, Controllen == 0`,
+  `some s` = the slot's UDP_SEGMENT cmsg with `gso_size = s` is attached. -/
+  ctl : List (Option Nat)
   out : Outcome
   deriving Repr
+
+/-- Control side of the `len(w.msgs)` mmsghdr slots (`Hdr.Control/Controllen` plus the 2-byte payload of the
+slot's pre-built UDP_SEGMENT cmsg).  This state lives in the writer: it survives from chunk to chunk and
+from one `WriteBatch` call to the next. -/
+abbrev Ctl := List (Option Nat)
+
+/-- `w.writeEntryCmsg(entry, runLen, segSize)`: a run of ≥ 2 packets gets the cmsg with
+`uint16(segSize)`, a single packet gets its control pointer *cleared*. -/
+def writeEntryCmsg (ctl : Ctl) (entry runLen segSize : Nat) : Ctl :=
+  ctl.set entry (if runLen ≥ 2 then some (segSize % 65536) else none)
+
+/-- result of the packing loop: committed entries (slot order), the value of `i` when the loop ends, and
+the control side of the slots. -/
+structure Packed where
+  ents : List Entry
+  next : Nat
+  ctl : Ctl
 
 structure Cfg (δ : Type) where
   n : Nat
@@ -85,20 +105,21 @@ def planRun (gso : Bool) (maxSeg : Int) (pk : List (Pkt δ)) (start : Nat) (iovB
 
 /-- the packing loop `for entry < len(w.msgs) && i < len(bufs)`: the entries committed (in slot order)
 and the value of `i` when the loop ends. -/
-def pack (c : Cfg δ) (gso : Bool) (pk : List (Pkt δ)) (i entry iovIdx : Nat) : List Entry × Nat :=
+def pack (c : Cfg δ) (gso : Bool) (pk : List (Pkt δ)) (i entry iovIdx : Nat) (ctl : Ctl) : Packed :=
   if h : entry < c.n ∧ i < pk.length then
     let iovBudget : Int := (c.n : Int) - (iovIdx : Int)
-    if iovBudget < 1 then ([], i)
+    if iovBudget < 1 then ⟨[], i, ctl⟩
     else
       let pr := planRun gso c.maxSeg pk i iovBudget
-      if hr : pr.1 = 0 then ([], i)
+      if hr : pr.1 = 0 then ⟨[], i, ctl⟩
       else if c.routable (pk[i]'h.2).dst then
-        let r := pack c gso pk (i + pr.1) (entry + 1) (iovIdx + pr.1)
-        ({ start := i, cnt := pr.1, seg := pr.2 } :: r.1, r.2)
+        -- entry committed: iovecs, sockaddr, then `w.writeEntryCmsg(entry, runLen, segSize)`
+        let r := pack c gso pk (i + pr.1) (entry + 1) (iovIdx + pr.1) (writeEntryCmsg ctl entry pr.1 pr.2)
+        ⟨{ start := i, cnt := pr.1, seg := pr.2 } :: r.ents, r.next, r.ctl⟩
       else
-        -- writeSockaddr failed: the run is skipped, no entry is committed
-        pack c gso pk (i + pr.1) entry iovIdx
-  else ([], i)
+        -- writeSockaddr failed: the run is skipped, no entry is committed, the slot is not touched
+        pack c gso pk (i + pr.1) entry iovIdx ctl
+  else ⟨[], i, ctl⟩
 termination_by pk.length - i
 decreasing_by all_goals (simp +zetaDelta only at *; omega)
 
@@ -118,22 +139,22 @@ structure Drained where
 def sumCnt (es : List Entry) : Nat := (es.map (·.cnt)).sum
 
 /-- the drain loop `for done < entry` over one packed chunk; `k` numbers the `sendFn` calls of the run. -/
-def drain (kern : Nat → Nat → Outcome) (gso : Bool) (chunk : List Entry) (done k : Nat) : Drained :=
+def drain (kern : Nat → Nat → Outcome) (gso : Bool) (chunk : List Entry) (ctl : Ctl) (done k : Nat) : Drained :=
   if h : done < chunk.length then
     let n := chunk.length - done
     let o := kern k n
-    let call : Call := { done := done, ents := chunk.drop done, out := o }
+    let call : Call := { done := done, ents := chunk.drop done, ctl := (ctl.drop done).take n, out := o }
     if o.sent > 0 then
       if o.sent > (n : Int) then { written := 0, calls := [call], stop := .overrun }
       else
         let s := o.sent.toNat
-        let r := drain kern gso chunk (done + s) (k + 1)
+        let r := drain kern gso chunk ctl (done + s) (k + 1)
         { written := sumCnt ((chunk.drop done).take s) + r.written, calls := call :: r.calls, stop := r.stop }
     else if o.err = .none then { written := 0, calls := [call], stop := .noProgress }
     else if gso = true ∧ (chunk[done]'h).cnt ≥ 2 ∧ o.err = .eio then
       { written := 0, calls := [call], stop := .replay (chunk[done]'h).start }
     else
-      let r := drain kern gso chunk (done + 1) (k + 1)
+      let r := drain kern gso chunk ctl (done + 1) (k + 1)
       { written := r.written, calls := call :: r.calls, stop := r.stop }
   else { written := 0, calls := [], stop := .finished }
 termination_by chunk.length - done
@@ -146,20 +167,22 @@ structure Result where
   overrun : Bool
   /-- `w.gsoSupported` after the call -/
   gso : Bool
+  /-- control side of the slots after the call -/
+  ctl : Ctl
   calls : List Call
 
 /-- a committed chunk moves `i` forward. -/
-theorem pack_progress (c : Cfg δ) (gso : Bool) (pk : List (Pkt δ)) (i entry iovIdx : Nat) :
-    i ≤ (pack c gso pk i entry iovIdx).2 ∧
-    ((pack c gso pk i entry iovIdx).1 ≠ [] → i < (pack c gso pk i entry iovIdx).2) := by
-  fun_induction pack c gso pk i entry iovIdx with
+theorem pack_progress (c : Cfg δ) (gso : Bool) (pk : List (Pkt δ)) (i entry iovIdx : Nat) (ctl : Ctl) :
+    i ≤ (pack c gso pk i entry iovIdx ctl).next ∧
+    ((pack c gso pk i entry iovIdx ctl).ents ≠ [] → i < (pack c gso pk i entry iovIdx ctl).next) := by
+  fun_induction pack c gso pk i entry iovIdx ctl with
   | case1 => simp
   | case2 => simp
-  | case3 i entry iovIdx h budget hb pr hr hroute r ih =>
+  | case3 i entry iovIdx ctl h budget hb pr hr hroute r ih =>
     have : 0 < pr.1 := Nat.pos_of_ne_zero hr
     simp +zetaDelta only [ne_eq, reduceCtorEq, not_false_eq_true, forall_const] at *
     omega
-  | case4 i entry iovIdx h budget hb pr hr hroute ih =>
+  | case4 i entry iovIdx ctl h budget hb pr hr hroute ih =>
     have : 0 < pr.1 := Nat.pos_of_ne_zero hr
     refine ⟨by omega, fun hne => ?_⟩
     have := ih.2 hne
@@ -167,40 +190,41 @@ theorem pack_progress (c : Cfg δ) (gso : Bool) (pk : List (Pkt δ)) (i entry io
   | case5 => simp
 
 /-- a replay is only requested while GSO is on. -/
-theorem drain_replay_gso (kern : Nat → Nat → Outcome) (gso : Bool) (chunk : List Entry) (done k i : Nat)
-    (h : (drain kern gso chunk done k).stop = .replay i) : gso = true := by
-  fun_induction drain kern gso chunk done k <;> simp_all +zetaDelta
+theorem drain_replay_gso (kern : Nat → Nat → Outcome) (gso : Bool) (chunk : List Entry) (ctl : Ctl) (done k i : Nat)
+    (h : (drain kern gso chunk ctl done k).stop = .replay i) : gso = true := by
+  fun_induction drain kern gso chunk ctl done k <;> simp_all +zetaDelta
 
-/-- `WriteBatch`'s outer loop `for i < len(bufs)`, from packet index `i` with `w.gsoSupported = gso`,
-`k` `sendFn` calls having been made so far. -/
-def run (c : Cfg δ) (kern : Nat → Nat → Outcome) (pk : List (Pkt δ)) (gso : Bool) (i k : Nat) : Result :=
+/-- `WriteBatch`'s outer loop `for i < len(bufs)`, from packet index `i` with `w.gsoSupported = gso` and the
+slots' control side `ctl`, `k` `sendFn` calls having been made so far. -/
+def run (c : Cfg δ) (kern : Nat → Nat → Outcome) (pk : List (Pkt δ)) (gso : Bool) (i k : Nat) (ctl : Ctl) : Result :=
   if h : i < pk.length then
-    let p := pack c gso pk i 0 0
-    if hp : p.1 = [] then
+    let p := pack c gso pk i 0 0 ctl
+    if hp : p.ents = [] then
       -- every remaining packet was skipped (or there is no scratch): `entry == 0`, break
-      { written := 0, err := false, overrun := false, gso := gso, calls := [] }
+      { written := 0, err := false, overrun := false, gso := gso, ctl := p.ctl, calls := [] }
     else
-      let d := drain kern gso p.1 0 k
+      let d := drain kern gso p.ents p.ctl 0 k
       match hd : d.stop with
       | .finished =>
-        let r := run c kern pk gso p.2 (k + d.calls.length)
+        let r := run c kern pk gso p.next (k + d.calls.length) p.ctl
         { r with written := d.written + r.written, calls := d.calls ++ r.calls }
       | .replay i' =>
-        let r := run c kern pk false i' (k + d.calls.length)
+        let r := run c kern pk false i' (k + d.calls.length) p.ctl
         { r with written := d.written + r.written, calls := d.calls ++ r.calls }
-      | .noProgress => { written := d.written, err := true, overrun := false, gso := gso, calls := d.calls }
-      | .overrun => { written := d.written, err := false, overrun := true, gso := gso, calls := d.calls }
-  else { written := 0, err := false, overrun := false, gso := gso, calls := [] }
+      | .noProgress => { written := d.written, err := true, overrun := false, gso := gso, ctl := p.ctl, calls := d.calls }
+      | .overrun => { written := d.written, err := false, overrun := true, gso := gso, ctl := p.ctl, calls := d.calls }
+  else { written := 0, err := false, overrun := false, gso := gso, ctl := ctl, calls := [] }
 termination_by (if gso then pk.length + 1 else 0) + (pk.length - i)
 decreasing_by
-  · have := (pack_progress c gso pk i 0 0).2 hp
+  · have := (pack_progress c gso pk i 0 0 ctl).2 hp
     omega
-  · have hg := drain_replay_gso kern gso _ 0 k i' hd
+  · have hg := drain_replay_gso kern gso _ _ 0 k i' hd
     simp [hg]; omega
 
-/-- `w.WriteBatch(bufs, addrs)` on a writer whose `gsoSupported` flag is `gso`. -/
-def writeBatch (c : Cfg δ) (kern : Nat → Nat → Outcome) (pk : List (Pkt δ)) (gso : Bool) : Result :=
-  run c kern pk gso 0 0
+/-- `w.WriteBatch(bufs, addrs)` on a writer whose `gsoSupported` flag is `gso` and whose slots' control side
+is `ctl` (whatever earlier batches left there). -/
+def writeBatch (c : Cfg δ) (kern : Nat → Nat → Outcome) (pk : List (Pkt δ)) (gso : Bool) (ctl : Ctl) : Result :=
+  run c kern pk gso 0 0 ctl
 
 /-- kernel given by a finite script of outcomes (then: everything offered is accepted). A real sendmmsg
 never reports more than it was offered, so `sent` is capped at `n`. -/
@@ -247,5 +271,16 @@ def RunShape {δ : Type} (maxSeg : Int) (pk : List (Pkt δ)) (e : Entry) : Prop 
     (e.cnt : Int) ≤ maxSeg ∧ e.seg ≤ maxGSOBytes ∧ sumLen (e.pkts pk) ≤ maxGSOBytes ∧
     (∀ p ∈ e.pkts pk, (∀ q, pk[e.start]? = some q → p.dst = q.dst) ∧ 0 < p.len ∧ p.len ≤ e.seg) ∧
     (∀ p ∈ (e.pkts pk).dropLast, p.len = e.seg))
+
+end Nebula.Writebatch
+
+namespace Nebula.Writebatch
+
+/-- the control side an entry must have: a run of ≥ 2 packets carries the UDP_SEGMENT cmsg announcing its
+segment size, a single packet carries no control data at all. -/
+def Entry.wantCtl (e : Entry) : Option Nat := if e.cnt ≥ 2 then some e.seg else none
+
+/-- what `writeEntryCmsg` literally leaves in the entry's slot (`uint16(segSize)`). -/
+def Entry.rawCtl (e : Entry) : Option Nat := if e.cnt ≥ 2 then some (e.seg % 65536) else none
 
 end Nebula.Writebatch
